@@ -29,7 +29,7 @@ CFG = {
             "(unary/binary i64 functions with max-merge, copy rules, rulesets, sorts, globals, update/read API) "
             "evaluated by the kernel against the engine's outputs for single sessions and clone pairs",
         ],
-        "theorem_backed": "for every database semantics and all P, Q, R with Q balanced (nested push/pop, declarations of "
+        "theorem_backed": "[session 4] push/pop bodies, the pop carry-over list, the field lists + clone classes of egglog::EGraph / egglog_bridge::EGraph / core_relations::Database and the TableInfo / Counters clone impls are REGENERATED (gen/SnapFacts.v); c08_pop_is_regenerated, c08_push_is_regenerated, c08_carveouts_are, c08_fields_classified, c08_shared_mutable_recorded, c08_tableinfo_clone_is: the model's push/pop ARE the interpreted regenerated bodies, every struct field is classified, the only shared-mutable field is action_registry (F6); for every database semantics and all P, Q, R with Q balanced (nested push/pop, declarations of "
                           "sorts/functions/rulesets/rules/globals, failing and half-declaring commands, API writes): "
                           "outputs(P;push;Q;pop;R) = outputs(P;R) on P and R up to exactly the run report shown by "
                           "print-stats and fresh-symbol numbers, final states equivalent frame by frame (declarations, "
